@@ -19,6 +19,44 @@ class Inconclusive(Exception):
     """Tool failure, timeout, dead driver: exit 2, never a violation."""
 
 
+class CodeCrash(Exception):
+    """The harness process was killed by a panic / fatal runtime error whose crashing goroutine is in the code under
+    test (github.com/akalin/gopar/...), where no recover() of the harness can reach."""
+
+    def __init__(self, signature, text, cmd):
+        Exception.__init__(self, signature)
+        self.signature, self.text, self.cmd = signature, text, cmd
+
+
+def classify_crash(stderr):
+    """Returns a signature if the Go crash dump blames the code under test, else None.
+    The crashing goroutine's stack comes first; its first frame outside the Go runtime decides."""
+    m = re.search(r"^(panic: [^\n]*|fatal error: [^\n]*)", stderr, re.M)
+    if not m:
+        return None
+    head = m.group(1)
+    if "out of memory" in head or "cannot allocate" in head:
+        return None
+    rest = stderr[m.end():]
+    g = re.search(r"^goroutine \d+[^\n]*:\n", rest, re.M)
+    if not g:
+        return None
+    stack = rest[g.end():].split("\n\n")[0]
+    funcs = [ln.split("(")[0].strip() for ln in stack.splitlines() if ln and not ln.startswith("\t")]
+    for f in funcs:
+        if f.startswith("runtime.") or f.startswith("panic(") or f.startswith("sync.") or f.startswith("internal/") or f.startswith("created by"):
+            continue
+        if f.startswith("github.com/akalin/gopar/"):
+            return re.sub(r"0x[0-9a-f]+", "0x..", head)[:160] + " @ " + f
+        return None
+    if "all goroutines are asleep" in head:
+        # a deadlock has no running goroutine: blame the code under test if any blocked goroutine is inside it
+        if "github.com/akalin/gopar/" in rest:
+            f = re.search(r"^(github\.com/akalin/gopar/[^\s(]+)", rest, re.M)
+            return head[:160] + " @ " + (f.group(1) if f else "?")
+    return None
+
+
 def log(*a):
     print(*a, file=sys.stderr, flush=True)
 
@@ -216,6 +254,9 @@ def run_vh(vh, args, timeout=1800, stdin=None, env_extra=None, cwd=None):
     except subprocess.TimeoutExpired:
         raise Inconclusive("harness timeout: vh %s" % " ".join(args))
     if p.returncode != 0:
+        sig = classify_crash(p.stderr.decode("utf-8", "replace"))
+        if sig:
+            raise CodeCrash(sig, p.stderr.decode("utf-8", "replace")[-6000:], "vh " + " ".join(args))
         raise Inconclusive("harness failed (rc=%d): vh %s\n%s" % (
             p.returncode, " ".join(args), p.stderr.decode("utf-8", "replace")[-4000:]))
     return p.stdout.decode("utf-8", "replace"), p.stderr.decode("utf-8", "replace"), time.time() - t0
